@@ -723,7 +723,101 @@ def judge(ctx, cid, lines, impl, model):
     return 0
 
 
+# ---- a device attached again after the rates changed (implementation-only oracle) -----------------------------------
+# "the device receives exactly rate_out / rate_in ticks per timeline tick ... and rates that are not whole multiples of one
+# another are refused (no later than the first tick)" — for the rates in force when the device is attached, also when it
+# had been attached before at other rates.  Sequences: attach, run, change the timeline's resolution, attach again
+# (directly or after another device was the output in between), run.
+
+def reattach_cases(ctx):
+    import isobar as iso
+    from isobar.io.output import OutputDevice
+    from isobar.exceptions import ClockException
+    r = ctx.rng
+
+    class Pulses(OutputDevice):
+        def __init__(self, ppqn):
+            super().__init__()
+            self._ppqn = ppqn
+            self.now = 0
+            self.pulses = []
+
+        @property
+        def ticks_per_beat(self):
+            return self._ppqn
+
+        def tick(self):
+            self.pulses.append(self.now)
+
+    rates = [4, 8, 12, 24, 48, 96, 100, 120, 192, 480, 960]
+
+    def drive(tl, dev, n):
+        dev.pulses = []
+        for k in range(n):
+            dev.now = k
+            tl.tick()
+        return list(dev.pulses)
+
+    def expect(tl_rate, dev_rate, n):
+        """pulse times over n timeline ticks, or None when the pair must be refused"""
+        if tl_rate % dev_rate and dev_rate % tl_rate:
+            return None
+        if dev_rate >= tl_rate:
+            return [k for k in range(n) for _ in range(dev_rate // tl_rate)]
+        return None if False else "spaced"
+
+    for i in range(ctx.scale(200, 8000)):
+        a, b, d = r.choice(rates), r.choice(rates), r.choice([4, 12, 24, 48, 96, 480])
+        if a % d and d % a:
+            continue                       # the first attachment itself is refused: covered by the generated histories
+        via_other = r.random() < 0.5
+        n1, n2 = r.randint(1, 3 * a), 4 * b + r.randint(0, b)
+        dev = Pulses(d)
+        case = {"timeline_rate": a, "new_timeline_rate": b, "device_rate": d, "detached_in_between": via_other, "ticks_before": n1}
+        problem = None
+        try:
+            tl = iso.Timeline(output_device=dev, clock_source=iso.DummyClock())
+            tl.ticks_per_beat = a
+            tl.output_device = dev
+            drive(tl, dev, n1)
+            if via_other:
+                tl.output_device = iso.io.DummyOutputDevice()
+            tl.ticks_per_beat = b
+            refused = False
+            try:
+                tl.output_device = dev
+                first = drive(tl, dev, 1)
+            except ClockException:
+                refused = True
+            must_refuse = bool(b % d and d % b)
+            if must_refuse and not refused:
+                problem = "a %d PPQN device attached again to the timeline now at %d PPQN was not refused by the first tick" % (d, b)
+            elif refused and not must_refuse:
+                problem = "a %d PPQN device attached again to the timeline now at %d PPQN was refused although the rates divide" % (d, b)
+            elif not refused:
+                pulses = first + [t + 1 for t in drive(tl, dev, n2)]
+                total = n2 + 1
+                if d >= b:
+                    ok = pulses == [k for k in range(total) for _ in range(d // b)]
+                    want = "%d pulse(s) on every tick" % (d // b)
+                else:
+                    gaps = set(y - x for x, y in zip(pulses, pulses[1:]))
+                    ok = gaps <= {b // d} and abs(len(pulses) - total * d / b) <= 1
+                    want = "one pulse every %d ticks" % (b // d)
+                if not ok:
+                    problem = "a %d PPQN device attached again to the timeline now at %d PPQN (before: %d) gets pulses at ticks %s…, expected %s" % (
+                        d, b, a, pulses[:8], want)
+        except Exception as ex:      # noqa
+            problem = "raised %s: %s" % (type(ex).__name__, ex)
+        ctx.case(("reattach", a, b, d, via_other, n1), nontrivial=a != b, validated=False, sample=dict(case))
+        ctx.count("reattach:%s" % ("refuse" if (b % d and d % b) else "ratio"))
+        if problem:
+            ctx.violation("%s:reattached-device" % PROPERTY, problem,
+                          {"suite": "c14-reattach", "case": case, "first_failing_clause": "ratio of the rates in force / refused iff not dividing"})
+
+
 def run(ctx):
+    reattach_cases(ctx)
     rng = ctx.rng
     cases = []
     n_mult = ctx.scale(4000, 60000)
